@@ -426,6 +426,7 @@ func (c *FailoverController) initiateFailover(reason string) error {
 
 // executeFailover performs the actual failover.
 func (c *FailoverController) executeFailover(reason string) {
+	verifGate(c, "executeFailover")
 	c.mu.Lock()
 
 	if c.state != FailoverStatePending && c.state != FailoverStateInProgress {
@@ -521,6 +522,7 @@ func (c *FailoverController) initiateFailback(reason string) error {
 
 // executeFailback performs the actual failback.
 func (c *FailoverController) executeFailback(reason string) {
+	verifGate(c, "executeFailback")
 	c.mu.Lock()
 
 	if c.state != FailoverStateFailbackPending {
